@@ -17,25 +17,28 @@ open SpyneModel.Null SpyneModel.Generated
 
 /-! ### NullServer ≈ wire, per protocol
 
-`wireView` is the only normalisation: an `Ignored` handed to the direct caller is compared with
-the empty reply, a generator with the sequence of its items. -/
+`wireViewP P` is the only normalisation: an `Ignored` handed to the direct caller is compared with
+the empty reply, a generator with the sequence of its items, and — only on a protocol that writes a
+missing member-less object as the empty element (`XmlDocument._bare_response`, measured fact
+`bareNone`) and only for a bare/out_bare method declared to return such a class — `None` with the
+empty instance of that class (`bare_none_view` below says exactly when). -/
 
 theorem null_eq_wire_xml (τ : Val → Val) (s : Sig) (impl : List Val → Result) (pos : List Val)
     (kw : List (String × Val)) (hprog : ProgramOkOn τ s impl (nullRecv facts18 s pos kw))
     (hkw : KwOk facts18 kw) (hcall : CallOk τ s pos kw) :
-    wireView s (nullCall facts18 s impl pos kw) = wireCall facts18 facts18.xml τ s impl pos kw :=
+    wireViewP facts18.xml s (nullCall facts18 s impl pos kw) = wireCall facts18 facts18.xml τ s impl pos kw :=
   null_eq_wire facts18 (by decide) facts18.xml (by decide) τ s impl pos kw hprog hkw hcall
 
 theorem null_eq_wire_soap (τ : Val → Val) (s : Sig) (impl : List Val → Result) (pos : List Val)
     (kw : List (String × Val)) (hprog : ProgramOkOn τ s impl (nullRecv facts18 s pos kw))
     (hkw : KwOk facts18 kw) (hcall : CallOk τ s pos kw) :
-    wireView s (nullCall facts18 s impl pos kw) = wireCall facts18 facts18.soap τ s impl pos kw :=
+    wireViewP facts18.soap s (nullCall facts18 s impl pos kw) = wireCall facts18 facts18.soap τ s impl pos kw :=
   null_eq_wire facts18 (by decide) facts18.soap (by decide) τ s impl pos kw hprog hkw hcall
 
 theorem null_eq_wire_json (τ : Val → Val) (s : Sig) (impl : List Val → Result) (pos : List Val)
     (kw : List (String × Val)) (hprog : ProgramOkOn τ s impl (nullRecv facts18 s pos kw))
     (hkw : KwOk facts18 kw) (hcall : CallOk τ s pos kw) :
-    wireView s (nullCall facts18 s impl pos kw) = wireCall facts18 facts18.json τ s impl pos kw :=
+    wireViewP facts18.json s (nullCall facts18 s impl pos kw) = wireCall facts18 facts18.json τ s impl pos kw :=
   null_eq_wire facts18 (by decide) facts18.json (by decide) τ s impl pos kw hprog hkw hcall
 
 /-! ### the user function is called with the same arguments -/
@@ -92,7 +95,7 @@ theorem ignored_direct_vs_wire (P : ProtoCfg)
     (kw : List (String × Val)) (hlen : pos.length ≤ keys.length) (x : Val)
     (himpl : ∀ recv, impl recv = .value (.ignored x)) :
     nullCall facts18 s impl pos kw = .ok (.ignored x) ∧
-    wireCall facts18 P τ s impl pos kw = .ok (emptyReply s) := by
+    wireCall facts18 P τ s impl pos kw = .ok (viewVal P s (emptyReply s)) := by
   have hg : P.Good := by rcases hP with h | h | h <;> subst h <;> decide
   exact Null.ignored_direct_vs_wire facts18 (by decide) P hg τ s impl keys hk pos kw hlen x himpl
 
@@ -131,6 +134,19 @@ theorem null_never_crashes (τ : Val → Val) (s : Sig) (impl : List Val → Res
     (hlen : pos.length ≤ keys.length) (hprog : ProgramOk τ s impl) (e : String) :
     nullCall facts18 s impl pos kw ≠ .exc e :=
   null_total facts18 (by decide) s impl keys hk pos kw hlen τ hprog e
+
+/-- what `viewVal` (the part of `wireViewP` that depends on the protocol) does: nothing, except that
+    for a method that is not wrapped and is declared to return a class without members, on a
+    protocol with `bareNone = emptyInstance`, the wire client gets an empty instance of that class
+    where the direct caller gets `None`. A member-less instance carries no information but its
+    presence; on such a protocol presence cannot be transmitted. In particular the EMPTY styles
+    without a declared return (`returns = none`) and every wrapped method are untouched, and a
+    protocol with `bareNone = nil` (dict documents) is untouched altogether. -/
+theorem bare_none_view (P : ProtoCfg) (s : Sig) (v : Val) :
+    viewVal P s v = v ∨
+    (∃ cls, P.bareNone = .emptyInstance ∧ s.style ≠ .wrapped ∧ s.returns = .one (.complex cls []) ∧
+      v = .none ∧ viewVal P s v = .obj cls []) :=
+  viewVal_cases P s v
 
 /-! ### body styles -/
 
@@ -238,7 +254,7 @@ example : ResultOk id sW (.seq [.int 1, .str "x"]) :=
 
 /-- the main theorem applies to an argument-dependent program and a mixed positional/keyword
     call: all its hypotheses are met -/
-example : wireView sW (nullCall facts18 sW echo2 [.int 1] [("b", .str "x")])
+example : wireViewP facts18.xml sW (nullCall facts18 sW echo2 [.int 1] [("b", .str "x")])
     = wireCall facts18 facts18.xml id sW echo2 [.int 1] [("b", .str "x")] :=
   null_eq_wire_xml id sW echo2 [.int 1] [("b", .str "x")]
     (by
@@ -283,6 +299,18 @@ example : let s : Sig := ⟨.bare, [], none, .one (.complex "Ack" [])⟩
     nullCall facts18 s (fun _ => .value (.obj "Ack" [])) [] [] = .ok (.obj "Ack" []) ∧
     wireCall facts18 facts18.xml id s (fun _ => .value (.obj "Ack" [])) [] [] = .ok (.obj "Ack" []) :=
   ⟨rfl, rfl, rfl⟩
+/-- `None` where a member-less class is declared, not wrapped: `None` to the direct caller; over a
+    protocol that writes the empty element an empty instance, over one that writes null `None`;
+    nothing declared (EMPTY style): `None` on both, whatever the protocol writes -/
+example : let s : Sig := ⟨.outBare, ["n"], none, .one (.complex "Ack" [])⟩
+    let X : ProtoCfg := { facts18.xml with bareNone := .emptyInstance }
+    let J : ProtoCfg := { facts18.json with bareNone := .nil }
+    nullCall facts18 s (fun _ => .value .none) [.int 0] [] = .ok .none ∧
+    wireCall facts18 X id s (fun _ => .value .none) [.int 0] [] = .ok (.obj "Ack" []) ∧
+    wireCall facts18 J id s (fun _ => .value .none) [.int 0] [] = .ok .none ∧
+    wireCall facts18 X id ⟨.bare, [], none, .none⟩ (fun _ => .value .none) [] [] = .ok .none :=
+  ⟨rfl, rfl, rfl, rfl⟩
+
 /-- the seeded defect in the model: with `ewWrapper := false` the direct caller loses the instance -/
 example : let F := { facts18 with ewWrapper := false }
     nullCall F ⟨.outBare, ["n"], none, .one (.complex "Ack" [])⟩ (fun _ => .value (.obj "Ack" [])) [.int 1] []
